@@ -93,7 +93,8 @@ def monitor(ctx, spec, r, label=""):
         if spec.get("feasible") is not None:
             pos = tuple(int(np.argmin(np.abs(space[n] - o["best_para"][n]))) for n in names)
             if pos not in spec["feasible"]:
-                ctx.violation(dict(sig, kind="best-para-constraint"), case, "best_para violates the constraints")
+                ctx.violation(dict(sig, kind="best-para-constraint", direction=(spec.get("cfg") or {}).get("direction")), case,
+                              "best_para violates the constraints")
         if not spec.get("script"):
             key = tuple(o["best_para"][n] for n in names)
             s = r["obj"].vtable[key][0]
